@@ -187,6 +187,8 @@ func checkC13(c *Ctx) *report.Result {
 			r.Ob("L-own", len(hit) == 0, fmt.Sprintf("write %04X-%04X leaves the line/mode schedule alone", iv[0], iv[1]), hposOf(c, w), fmt.Sprintf("timing cells stored: %v (only a write to LCDC may restart the schedule)", hit))
 		}
 	}
+	r.Rule("L-step", "the PPU step is called exactly once per machine cycle by the frame loop, whatever the CPU is doing (rule L2 of C26 re-stated)")
+	adopt(r, c.sibling("C26"), map[string]string{"L2": "L-step"}, "a PPU that is not stepped every machine cycle does not follow the frame schedule in emulated time")
 	return r
 }
 
@@ -325,6 +327,8 @@ func checkC14(c *Ctx) *report.Result {
 	}
 	r.Rule("Q-sched", "the schedule the request table is indexed by is the documented one (rules L-inv / L-switch of C13 re-stated): a state that is skipped requests nothing")
 	adopt(r, c.sibling("C13"), map[string]string{"L-inv": "Q-sched", "L-switch": "Q-sched", "L-own": "Q-sched"}, "a timing state that is never visited never raises its request")
+	r.Rule("Q-order", "the CPU acts before the PPU in every machine cycle and each is stepped once (L2 of C26 re-stated): a request raised in a cycle is not wiped by an IF write the program makes in that same cycle")
+	adopt(r, c.sibling("C26"), map[string]string{"L2": "Q-order"}, "with the PPU stepped first, a store to IF in the cycle of a request clears the request that should survive it")
 	return r
 }
 
@@ -724,6 +728,20 @@ func checkC17(c *Ctx) *report.Result {
 		}, func(*world.Entry, *ai.State) {})
 		for k, pos := range viol {
 			r.Ob("O-writers", false, k, pos, "OAM may change only through the CPU write handler, the DMA tick and the corruption routines")
+		}
+		// ... and the machine gameboy.New returns has neither a transfer running nor a corruption armed
+		{
+			init := it.StateOn(c.W.InitHeap)
+			var set []string
+			for _, p := range append(append([]string{}, arm...), dmaFlag) {
+				if p == "" {
+					continue
+				}
+				if b, isc := boolConst(c.cellBool(init, oam, p)); !isc || b {
+					set = append(set, p)
+				}
+			}
+			r.Ob("O-writers", len(set) == 0, "after construction no DMA transfer is running and no corruption is armed", "", fmt.Sprintf("flags that may be set in the constructed machine: %v (OAM would change without an FF46 write or a CPU access)", set))
 		}
 		r.Ob("O-writers", n > 0 && len(allowed) >= 2, "stores into the OAM array examined over every run-phase entry", "", fmt.Sprintf("%d stores; direct writers %v; via the corruption step %v", n, sortedKeys(allowed), sortedKeys(viaCorrupt)))
 		r.Instances["O-writers"] += n
